@@ -272,6 +272,41 @@ func c16Stores(c *Ctx, a *sketchAnchors) {
 					}
 				}
 			}
+			// the re-add loop reads the old buffer while s.buffer has been cut to length 0 over the SAME array: it is only
+			// sound because AddWithCount(index, w) with w ≠ 1 never appends to the buffer (it goes to a page). Side
+			// condition on the callee: the buffer is appended to only for a weight of exactly 1.
+			if aw := c.P.DeclaredMethod(pr.typ, "AddWithCount"); c.mustFunc(rule, aw, "BufferedPaginatedStore.AddWithCount") {
+				aps, _ := exec(c, aw, nil, 2)
+				badA := ""
+				nBuf := 0
+				for _, p := range aps {
+					touches := false
+					for _, e := range p.Effects {
+						if e.Kind == "call" && isMethodCall(e.Call, "Add") && len(e.Call.Args) == 2 && e.Call.Args[0].isRecv() {
+							touches = true
+						}
+						if e.Kind == "store" && isRecvField(e.Addr.unver(), pr.bufFld) {
+							touches = true
+						}
+					}
+					if !touches {
+						continue
+					}
+					nBuf++
+					unit := false
+					for _, cd := range p.Conds {
+						t := cd.Term
+						if t.isBin("==") && cd.Taken && (t.Args[0].isConst("1") && t.Args[1].isParam(2) || t.Args[1].isConst("1") && t.Args[0].isParam(2)) {
+							unit = true
+						}
+					}
+					if !unit {
+						badA = "a weight other than exactly 1 is appended to the buffer on path [" + p.String() + "]"
+					}
+				}
+				c.R.check(badA == "" && nBuf > 0, rule, "BufferedPaginatedStore.AddWithCount/buffer-only-for-unit-weight", shortFn(aw), c.fpos(aw),
+					"the buffer receives an entry only when the weight is exactly 1 (the side condition that makes Reweight's in-place re-add sound)", firstNonEmpty(badA, fmt.Sprintf("%d buffer-appending path(s)", nBuf)))
+			}
 			c.R.check(bad == "" && nReadd > 0, rule, "BufferedPaginatedStore.Reweight/buffer-readd", shortFn(f), c.fpos(f),
 				"buffer emptied, then every index it held is re-added with weight w", firstNonEmpty(bad, fmt.Sprintf("%d re-add occurrence(s)", nReadd)))
 		}
